@@ -201,6 +201,11 @@ func (c *col) full() bool  { return c.max > 0 && len(c.out) >= c.max }
 // refProduct: lexicographic order.
 func refProduct(n []int, max int) [][]int {
 	c := &col{max: max}
+	for _, v := range n {
+		if v < 1 {
+			return nil
+		}
+	}
 	cur := make([]int, len(n))
 	var rec func(i int)
 	rec = func(i int) {
@@ -274,7 +279,7 @@ func refComb(n, k, max int) [][]int {
 			c.add(cur)
 			return
 		}
-		for v := from; v < n && !c.full(); v++ {
+		for v := from; v <= n-(k-len(cur)) && !c.full(); v++ {
 			cur = append(cur, v)
 			rec(v + 1)
 			cur = cur[:len(cur)-1]
@@ -420,6 +425,36 @@ func refPrefixPerms(n int, f func([]int) bool, std bool, max int) [][]int {
 		}
 	}
 	rec()
+	return c.out
+}
+
+// refPatternTree: the depth-first search of the documentation of PermutationsByPattern (children
+// of P: append x in {len(P), .., 0} and increase the entries >= x), pruned by f.  On small n it
+// is checked against the property's definition (all standardised prefixes accepted).
+func refPatternTree(n int, f func([]int) bool) [][]int {
+	c := &col{}
+	var rec func(p []int)
+	rec = func(p []int) {
+		if len(p) == n {
+			c.add(p)
+			return
+		}
+		for x := len(p); x >= 0; x-- {
+			q := make([]int, len(p)+1)
+			for i, v := range p {
+				if v >= x {
+					q[i] = v + 1
+				} else {
+					q[i] = v
+				}
+			}
+			q[len(p)] = x
+			if f(q) {
+				rec(q)
+			}
+		}
+	}
+	rec([]int{})
 	return c.out
 }
 
@@ -731,7 +766,101 @@ func maxOf(a []int) int {
 // against it).
 const smallPerm = 8
 
+// mkIter constructs the iterator of an (ordered, window-free) case and returns its Next and a
+// formatter of a copy of its Value; used for the interleaved pairs.
+func mkIter(f []string) (func() bool, func() string) {
+	switch f[0] {
+	case "product":
+		it := itertools.Product(atois(f[1:])...)
+		return it.Next, func() string { return tup(it.Value()) }
+	case "comb":
+		it := itertools.Combinations(atoi(f[1]), atoi(f[2]))
+		return it.Next, func() string { return tup(it.Value()) }
+	case "colex":
+		it := itertools.CombinationsColex(atoi(f[1]), atoi(f[2]))
+		return it.Next, func() string { return tup(it.Value()) }
+	case "mcomb":
+		it := itertools.MultisetCombinations(atois(f[2:]), atoi(f[1]))
+		return it.Next, func() string { return tup(it.Value()) }
+	case "lexperm":
+		it := itertools.LexicographicPermutations(atoi(f[1]))
+		return it.Next, func() string { return tup(it.Value()) }
+	case "mperm":
+		it := itertools.MultisetPermutations(atois(f[1:]))
+		return it.Next, func() string { return tup(it.Value()) }
+	case "intparts":
+		it := itertools.IntegerPartitions(atoi(f[1]))
+		return it.Next, func() string { return tup(it.Value()) }
+	case "parts":
+		it := itertools.Partitions(atoi(f[1]))
+		return it.Next, func() string {
+			p := it.Value()
+			bl := make([]string, len(p))
+			for i, b := range p {
+				bl[i] = strings.ReplaceAll(tup(b), "e", "")
+			}
+			return strings.Join(bl, "|")
+		}
+	case "rpprod":
+		it := itertools.RestrictedPrefixProduct(parsePred(f[1]), atois(f[2:])...)
+		return it.Next, func() string { return tup(it.Value()) }
+	case "rpperm":
+		it := itertools.RestrictedPrefixPermutations(atoi(f[2]), parsePred(f[1]))
+		return it.Next, func() string { return tup(it.Value()) }
+	}
+	panic("mkIter: " + f[0])
+}
+
+// execPair: two iterators alive at the same time, their calls of Next interleaved; each must
+// behave exactly as when run alone (no state shared between iterator objects).
+func execPair(line string) hx.Result {
+	parts := strings.SplitN(strings.TrimPrefix(line, "il "), " ;; ", 2)
+	ra, rb := exec(parts[0]), exec(parts[1])
+	res := hx.Result{Obs: ra.Obs + " && " + rb.Obs, Nontrivial: ra.Nontrivial || rb.Nontrivial}
+	res.Viol = append(res.Viol, ra.Viol...)
+	res.Viol = append(res.Viol, rb.Viol...)
+	res.Buckets = []string{"interleaved-pair", "pair:" + strings.Fields(parts[0])[0] + "+" + strings.Fields(parts[1])[0]}
+	nA, vA := mkIter(strings.Fields(parts[0]))
+	nB, vB := mkIter(strings.Fields(parts[1]))
+	var sa, sb []string
+	doneA, doneB := 0, 0 // number of false results seen
+	for steps := 0; (doneA < 4 || doneB < 4) && steps < 200000; steps++ {
+		if doneA < 4 {
+			if nA() {
+				sa = append(sa, vA())
+				if doneA > 0 {
+					sa = append(sa, "<true after false>")
+				}
+			} else {
+				doneA++
+			}
+		}
+		if doneB < 4 {
+			if nB() {
+				sb = append(sb, vB())
+				if doneB > 0 {
+					sb = append(sb, "<true after false>")
+				}
+			} else {
+				doneB++
+			}
+		}
+	}
+	wantA := fmt.Sprintf("%d:%s;FFF", len(sa), strings.Join(sa, "/"))
+	wantB := fmt.Sprintf("%d:%s;FFF", len(sb), strings.Join(sb, "/"))
+	if wantA != ra.Obs {
+		res.Viol = append(res.Viol, hx.Fail("C15:pair", "interleaved with [%s] the iterator [%s] yields %s, alone %s", parts[1], parts[0], clip(wantA), clip(ra.Obs)))
+	}
+	if wantB != rb.Obs {
+		res.Viol = append(res.Viol, hx.Fail("C15:pair", "interleaved with [%s] the iterator [%s] yields %s, alone %s", parts[0], parts[1], clip(wantB), clip(rb.Obs)))
+	}
+	return res
+}
+
 func exec(line string) hx.Result {
+	if strings.HasPrefix(line, "il ") {
+		return execPair(line)
+	}
 	f := strings.Fields(line)
 	name := f[0]
 	window := 0
@@ -931,10 +1060,10 @@ func exec(line string) hx.Result {
 	case "pattern":
 		p := parsePred(f[1])
 		n := atoi(f[2])
-		r := refPrefixPerms(n, p, true, 0)
+		r := refPatternTree(n, p)
 		if n <= smallPerm {
 			r2 := filter(refPerms(n, 0), func(a []int) bool { return allPatternsOK(p, a) })
-			if !sameLists(r, r2) {
+			if strings.Join(sortedStrings(tups(r)), "/") != strings.Join(sortedStrings(tups(r2)), "/") {
 				panic("harness: the pruned search disagrees with filtering the permutations")
 			}
 		}
@@ -1272,6 +1401,20 @@ func gen(g *hx.Gen) {
 
 	genLarge(g)
 	genExtreme(g)
+
+	// two iterators alive at once, calls interleaved (same and different constructors)
+	solo := []string{"product 2 3 2", "product 3 1 2", "comb 6 3", "comb 5 2", "colex 6 3", "colex 5 4", "mcomb 3 2 1 2", "mcomb 2 1 1 1 1",
+		"lexperm 4", "mperm 2 1 2", "mperm 1 3", "intparts 9", "intparts 7", "parts 4", "parts 5", "rpprod p4 3 3 3", "rpprod p5 2 4 3",
+		"rpperm p5 5", "rpperm p10 4", "comb 18 17", "mperm 15 2", "mcomb 2 17 1 1"}
+	for i, a := range solo {
+		g.Emit("il " + a + " ;; " + a)
+		for j, b := range solo {
+			if i != j && (g.Thorough() || (i+2*j)%5 == 0) {
+				g.Emit("il " + a + " ;; " + b)
+			}
+		}
+	}
+	g.Exhaustive(fmt.Sprintf("interleaved pairs: two iterators alive at once with alternating calls of Next, %d constructor calls paired with themselves and with each other", len(solo)))
 }
 
 // rep returns n copies of v.
@@ -1378,7 +1521,7 @@ func genLarge(g *hx.Gen) {
 		// TopologicalSorts: the total order with a few adjacent pairs left free (2^k sorts), and the last pairs free
 		for _, cnt := range []int{0, 1, 4, 8} {
 			free := map[int]bool{}
-			for len(free) < cnt && len(free) < (L-1)/2 {
+			for tries := 0; len(free) < cnt && tries < 200; tries++ {
 				i := r.Intn(L - 1)
 				if !free[i] && !free[i-1] && !free[i+1] {
 					free[i] = true
